@@ -1,15 +1,16 @@
 (* Decision translator — the per-run obligations over coq/Gen/ActionDecisions.v (regenerated
    from /repo by every check run).  One lemma per Go function, ONE PER LINE, so that the
-   line of a failure names the function whose conditions no longer mean what the model
-   tests; the message of the failing tactic names the site.  See notes/DEC.md.
+   line of a failure names the function whose decisions no longer mean what the model
+   tests; the message of the failing tactic names the item.  See notes/DEC.md.
 
-   [fn_ok sites decisions f] says: the Go function f has as many data conditions as the
-   model's table lists for it, in the same order, and for every site that the table ties to
-   a condition c of the model, FOR ALL environments m (all statuses, events, policies,
-   booleans, ALL integers, all strings) the extracted Go expression evaluates, and to c m.
-   Proof per site: evaluate the interpreter symbolically, abstract the variables, case split
-   over the finite kinds, [lia] (with ZifyBool) for what is left over the integers — no
-   finite window. *)
+   [fn_ok decisions (model_of model f)] says: for every item the model lists for the Go
+   function f (a return identified by its error, a call, an append, a field assignment, a
+   predicate, the value of an integer local), the generated table has an item with that key,
+   and FOR ALL environments m (all statuses, events, policies, booleans, ALL integers, all
+   strings) that meet the function's stated assumptions, its path condition evaluates, and
+   to the model's path condition at m.  Proof per item: evaluate the interpreter
+   symbolically, use the assumptions, abstract the variables, case split over the finite
+   kinds, [lia] (with ZifyBool) for what is left over the integers — no finite window. *)
 From Coq Require Import List String Bool ZArith Lia ZifyBool.
 From Helm Require Import Engine.Types Engine.Ops Engine.Decisions Engine.DecisionsModel Gen.ActionDecisions.
 Import ListNotations.
@@ -26,8 +27,18 @@ Ltac pose_lens m Hwf :=
           | _ => pose proof (Hwf x eq_refl)
           end
       end
+  end.
+
+(* the assumptions of the function: equations are rewritten, bounds are kept *)
+Ltac use_pre Hpre :=
+  cbn [all_hold holds map fst no_err app] in Hpre; unfold err_is_key in Hpre; cbn [append] in Hpre;
+  repeat match type of Hpre with
+  | _ /\ _ => let H := fresh "Ha" in destruct Hpre as [H Hpre]
   end;
-  repeat match goal with H : (0 <= m_n m _)%Z |- _ => revert H end.
+  clear Hpre;
+  repeat match goal with
+  | H : ?a = ?b |- _ => try rewrite H; clear H
+  end.
 
 Ltac gen_atoms m :=
   repeat match goal with
@@ -38,6 +49,7 @@ Ltac gen_atoms m :=
   | |- context [m_flag m ?x] => let v := fresh "f" in generalize (m_flag m x); intro v
   | |- context [m_err m ?x] => let v := fresh "r" in generalize (m_err m x); intro v
   | |- context [m_nil m ?x] => let v := fresh "n" in generalize (m_nil m x); intro v
+  | |- context [m_opq m ?x] => let v := fresh "o" in generalize (m_opq m x); intro v
   | |- context [m_n m ?x] => let v := fresh "z" in generalize (m_n m x); intro v
   | |- context [m_str m ?x] => let v := fresh "t" in generalize (m_str m x); intro v
   end.
@@ -57,215 +69,209 @@ Ltac split_fin :=
   | x : bool |- _ => destruct x
   end.
 
-Ltac site_tac :=
+Ltac item_tac :=
   lazymatch goal with
-  | |- site_ok (Outside _ _) _ => exact I
-  | |- site_ok (Modelled ?lbl ?c) ?g =>
+  | |- item_ok ?pre ?it ?g =>
       first
         [ solve
             [ let m := fresh "m" in
               let Hwf := fresh "Hwf" in
-              intros m Hwf; try unfold c; cbv beta;
-              simpl; unfold err_is_key; simpl;
-              apply (f_equal (fun b => Some (VB b)));
+              let Hpre := fresh "Hpre" in
+              intros m Hwf Hpre; unfold mvalue; autounfold with dec; cbv beta;
+              simpl deval; unfold err_is_key; simpl;
+              use_pre Hpre; simpl;
+              first [ apply (f_equal (fun b => Some (VB b))) | apply (f_equal (fun z => Some (VN z))) ];
               pose_lens m Hwf; clear Hwf;
-              gen_atoms m; clear m; gen_strs; intros; split_fin; simpl; try reflexivity; lia ]
-        | fail 1 "DEC: the Go condition at site" lbl "no longer means what the model tests:" g ]
+              repeat match goal with H : (0 <= m_n m _)%Z |- _ => revert H end;
+              gen_atoms m; clear m; gen_strs; intros; split_fin; simpl; try reflexivity;
+              repeat match goal with |- context [if ?c then _ else _] => let E := fresh "E" in destruct c eqn:E end;
+              try reflexivity; lia ]
+        | fail 1 "DEC: an item of the Go function no longer means what the model says:" g ]
+  end.
+
+Ltac items_tac :=
+  lazymatch goal with
+  | |- True => exact I
+  | |- item_ok _ _ (DUnknown "no such item") /\ _ => fail "DEC: the Go function has no such item any more"
+  | |- _ /\ _ => split; [ item_tac | items_tac ]
   end.
 
 Ltac fn_tac :=
   lazymatch goal with
-  | |- fn_ok ?st ?gt ?f =>
-      let gs := eval vm_compute in (map snd (sites_of gt f)) in
-      let ss := eval cbv [sites_of st find fst snd String.eqb Ascii.eqb Bool.eqb] in (sites_of st f) in
-      change (sites_ok ss gs);
-      lazymatch eval vm_compute in (Nat.eqb (List.length ss) (List.length gs)) with
-      | true => idtac
-      | false => fail "DEC: the number of data conditions of" f "changed; the Go source now has:" gs
+  | |- fn_ok ?gt (model_of ?mt ?f) =>
+      let fm := eval cbv [model_of mt find fn_name String.eqb Ascii.eqb Bool.eqb] in (model_of mt f) in
+      change (fn_ok gt fm);
+      cbv [fn_ok fn_name fn_pre fn_items items_ok];
+      repeat match goal with
+      | |- context [go_item gt f ?k] =>
+          let g := eval vm_compute in (go_item gt f k) in
+          lazymatch g with
+          | DUnknown "no such item" => fail 2 "DEC: the Go function" f "has no item" k "any more"
+          | DUnknown "no such function" => fail 2 "DEC: the Go function" f "is not in the table"
+          | _ => change (go_item gt f k) with g
+          end
       end;
-      cbv [sites_ok]; repeat split; site_tac
+      items_tac
   end.
 
-(* (a) structure: the tracked functions, in order *)
-Lemma decisions_functions : map fst sites = map fst decisions.
-Proof. vm_compute. reflexivity. Qed.
+(* per function *)
+Lemma fn_Install_RunWithContext : fn_ok decisions (model_of model "Install.RunWithContext"). Proof. fn_tac. Qed.
+Lemma fn_Install_performInstall : fn_ok decisions (model_of model "Install.performInstall"). Proof. fn_tac. Qed.
+Lemma fn_Install_availableName : fn_ok decisions (model_of model "Install.availableName"). Proof. fn_tac. Qed.
+Lemma fn_Install_replaceRelease : fn_ok decisions (model_of model "Install.replaceRelease"). Proof. fn_tac. Qed.
+Lemma fn_Upgrade_prepareUpgrade : fn_ok decisions (model_of model "Upgrade.prepareUpgrade"). Proof. fn_tac. Qed.
+Lemma fn_Upgrade_failRelease : fn_ok decisions (model_of model "Upgrade.failRelease"). Proof. fn_tac. Qed.
+Lemma fn_Rollback_prepareRollback : fn_ok decisions (model_of model "Rollback.prepareRollback"). Proof. fn_tac. Qed.
+Lemma fn_Uninstall_Run : fn_ok decisions (model_of model "Uninstall.Run"). Proof. fn_tac. Qed.
+Lemma fn_Uninstall_deleteRelease : fn_ok decisions (model_of model "Uninstall.deleteRelease"). Proof. fn_tac. Qed.
+Lemma fn_Configuration_execHook : fn_ok decisions (model_of model "Configuration.execHook"). Proof. fn_tac. Qed.
+Lemma fn_hookByWeight_Less : fn_ok decisions (model_of model "hookByWeight.Less"). Proof. fn_tac. Qed.
+Lemma fn_Configuration_deleteHookByPolicy : fn_ok decisions (model_of model "Configuration.deleteHookByPolicy"). Proof. fn_tac. Qed.
+Lemma fn_hookHasDeletePolicy : fn_ok decisions (model_of model "hookHasDeletePolicy"). Proof. fn_tac. Qed.
+Lemma fn_Configuration_releaseContent : fn_ok decisions (model_of model "Configuration.releaseContent"). Proof. fn_tac. Qed.
+Lemma fn_filterManifestsToKeep : fn_ok decisions (model_of model "filterManifestsToKeep"). Proof. fn_tac. Qed.
+Lemma fn_requireValue : fn_ok decisions (model_of model "requireValue"). Proof. fn_tac. Qed.
+Lemma fn_Storage_Create : fn_ok decisions (model_of model "Storage.Create"). Proof. fn_tac. Qed.
+Lemma fn_Storage_Deployed : fn_ok decisions (model_of model "Storage.Deployed"). Proof. fn_tac. Qed.
+Lemma fn_Storage_removeLeastRecent : fn_ok decisions (model_of model "Storage.removeLeastRecent"). Proof. fn_tac. Qed.
+Lemma fn_Storage_Last : fn_ok decisions (model_of model "Storage.Last"). Proof. fn_tac. Qed.
+Lemma fn_Status_IsPending : fn_ok decisions (model_of model "Status.IsPending"). Proof. fn_tac. Qed.
+Lemma fn_ByRevision_Less : fn_ok decisions (model_of model "ByRevision.Less"). Proof. fn_tac. Qed.
 
-(* (b) per function *)
-Lemma fn_Install_RunWithContext : fn_ok sites decisions "Install.RunWithContext". Proof. fn_tac. Qed.
-Lemma fn_Install_performInstall : fn_ok sites decisions "Install.performInstall". Proof. fn_tac. Qed.
-Lemma fn_Install_failRelease : fn_ok sites decisions "Install.failRelease". Proof. fn_tac. Qed.
-Lemma fn_Install_availableName : fn_ok sites decisions "Install.availableName". Proof. fn_tac. Qed.
-Lemma fn_Install_replaceRelease : fn_ok sites decisions "Install.replaceRelease". Proof. fn_tac. Qed.
-Lemma fn_Upgrade_RunWithContext : fn_ok sites decisions "Upgrade.RunWithContext". Proof. fn_tac. Qed.
-Lemma fn_Upgrade_prepareUpgrade : fn_ok sites decisions "Upgrade.prepareUpgrade". Proof. fn_tac. Qed.
-Lemma fn_Upgrade_performUpgrade : fn_ok sites decisions "Upgrade.performUpgrade". Proof. fn_tac. Qed.
-Lemma fn_Upgrade_releasingUpgrade : fn_ok sites decisions "Upgrade.releasingUpgrade". Proof. fn_tac. Qed.
-Lemma fn_Upgrade_failRelease : fn_ok sites decisions "Upgrade.failRelease". Proof. fn_tac. Qed.
-Lemma fn_Rollback_Run : fn_ok sites decisions "Rollback.Run". Proof. fn_tac. Qed.
-Lemma fn_Rollback_prepareRollback : fn_ok sites decisions "Rollback.prepareRollback". Proof. fn_tac. Qed.
-Lemma fn_Rollback_performRollback : fn_ok sites decisions "Rollback.performRollback". Proof. fn_tac. Qed.
-Lemma fn_Uninstall_Run : fn_ok sites decisions "Uninstall.Run". Proof. fn_tac. Qed.
-Lemma fn_Uninstall_purgeReleases : fn_ok sites decisions "Uninstall.purgeReleases". Proof. fn_tac. Qed.
-Lemma fn_Uninstall_deleteRelease : fn_ok sites decisions "Uninstall.deleteRelease". Proof. fn_tac. Qed.
-Lemma fn_Configuration_execHook : fn_ok sites decisions "Configuration.execHook". Proof. fn_tac. Qed.
-Lemma fn_hookByWeight_Less : fn_ok sites decisions "hookByWeight.Less". Proof. fn_tac. Qed.
-Lemma fn_Configuration_deleteHookByPolicy : fn_ok sites decisions "Configuration.deleteHookByPolicy". Proof. fn_tac. Qed.
-Lemma fn_Configuration_deleteHooksByPolicy : fn_ok sites decisions "Configuration.deleteHooksByPolicy". Proof. fn_tac. Qed.
-Lemma fn_hookHasDeletePolicy : fn_ok sites decisions "hookHasDeletePolicy". Proof. fn_tac. Qed.
-Lemma fn_Configuration_outputLogsByPolicy : fn_ok sites decisions "Configuration.outputLogsByPolicy". Proof. fn_tac. Qed.
-Lemma fn_Configuration_releaseContent : fn_ok sites decisions "Configuration.releaseContent". Proof. fn_tac. Qed.
-Lemma fn_filterManifestsToKeep : fn_ok sites decisions "filterManifestsToKeep". Proof. fn_tac. Qed.
-Lemma fn_requireValue : fn_ok sites decisions "requireValue". Proof. fn_tac. Qed.
-Lemma fn_Storage_Create : fn_ok sites decisions "Storage.Create". Proof. fn_tac. Qed.
-Lemma fn_Storage_Deployed : fn_ok sites decisions "Storage.Deployed". Proof. fn_tac. Qed.
-Lemma fn_Storage_DeployedAll : fn_ok sites decisions "Storage.DeployedAll". Proof. fn_tac. Qed.
-Lemma fn_Storage_removeLeastRecent : fn_ok sites decisions "Storage.removeLeastRecent". Proof. fn_tac. Qed.
-Lemma fn_Storage_Last : fn_ok sites decisions "Storage.Last". Proof. fn_tac. Qed.
-Lemma fn_Status_IsPending : fn_ok sites decisions "Status.IsPending". Proof. fn_tac. Qed.
-Lemma fn_ByRevision_Less : fn_ok sites decisions "ByRevision.Less". Proof. fn_tac. Qed.
-
-Lemma decisions_table_ok : table_ok sites decisions.
+Lemma decisions_table_ok : table_ok model decisions.
 Proof.
-  split; [exact decisions_functions|].
-  change (map fst sites) with
-    ["Install.RunWithContext";
-     "Install.performInstall";
-     "Install.failRelease";
-     "Install.availableName";
-     "Install.replaceRelease";
-     "Upgrade.RunWithContext";
-     "Upgrade.prepareUpgrade";
-     "Upgrade.performUpgrade";
-     "Upgrade.releasingUpgrade";
-     "Upgrade.failRelease";
-     "Rollback.Run";
-     "Rollback.prepareRollback";
-     "Rollback.performRollback";
-     "Uninstall.Run";
-     "Uninstall.purgeReleases";
-     "Uninstall.deleteRelease";
-     "Configuration.execHook";
-     "hookByWeight.Less";
-     "Configuration.deleteHookByPolicy";
-     "Configuration.deleteHooksByPolicy";
-     "hookHasDeletePolicy";
-     "Configuration.outputLogsByPolicy";
-     "Configuration.releaseContent";
-     "filterManifestsToKeep";
-     "requireValue";
-     "Storage.Create";
-     "Storage.Deployed";
-     "Storage.DeployedAll";
-     "Storage.removeLeastRecent";
-     "Storage.Last";
-     "Status.IsPending";
-     "ByRevision.Less"].
+  unfold table_ok.
+  change model with
+    [model_of model "Install.RunWithContext";
+     model_of model "Install.performInstall";
+     model_of model "Install.availableName";
+     model_of model "Install.replaceRelease";
+     model_of model "Upgrade.prepareUpgrade";
+     model_of model "Upgrade.failRelease";
+     model_of model "Rollback.prepareRollback";
+     model_of model "Uninstall.Run";
+     model_of model "Uninstall.deleteRelease";
+     model_of model "Configuration.execHook";
+     model_of model "hookByWeight.Less";
+     model_of model "Configuration.deleteHookByPolicy";
+     model_of model "hookHasDeletePolicy";
+     model_of model "Configuration.releaseContent";
+     model_of model "filterManifestsToKeep";
+     model_of model "requireValue";
+     model_of model "Storage.Create";
+     model_of model "Storage.Deployed";
+     model_of model "Storage.removeLeastRecent";
+     model_of model "Storage.Last";
+     model_of model "Status.IsPending";
+     model_of model "ByRevision.Less"].
   exact
    (Forall_cons _ fn_Install_RunWithContext
     (Forall_cons _ fn_Install_performInstall
-    (Forall_cons _ fn_Install_failRelease
     (Forall_cons _ fn_Install_availableName
     (Forall_cons _ fn_Install_replaceRelease
-    (Forall_cons _ fn_Upgrade_RunWithContext
     (Forall_cons _ fn_Upgrade_prepareUpgrade
-    (Forall_cons _ fn_Upgrade_performUpgrade
-    (Forall_cons _ fn_Upgrade_releasingUpgrade
     (Forall_cons _ fn_Upgrade_failRelease
-    (Forall_cons _ fn_Rollback_Run
     (Forall_cons _ fn_Rollback_prepareRollback
-    (Forall_cons _ fn_Rollback_performRollback
     (Forall_cons _ fn_Uninstall_Run
-    (Forall_cons _ fn_Uninstall_purgeReleases
     (Forall_cons _ fn_Uninstall_deleteRelease
     (Forall_cons _ fn_Configuration_execHook
     (Forall_cons _ fn_hookByWeight_Less
     (Forall_cons _ fn_Configuration_deleteHookByPolicy
-    (Forall_cons _ fn_Configuration_deleteHooksByPolicy
     (Forall_cons _ fn_hookHasDeletePolicy
-    (Forall_cons _ fn_Configuration_outputLogsByPolicy
     (Forall_cons _ fn_Configuration_releaseContent
     (Forall_cons _ fn_filterManifestsToKeep
     (Forall_cons _ fn_requireValue
     (Forall_cons _ fn_Storage_Create
     (Forall_cons _ fn_Storage_Deployed
-    (Forall_cons _ fn_Storage_DeployedAll
     (Forall_cons _ fn_Storage_removeLeastRecent
     (Forall_cons _ fn_Storage_Last
     (Forall_cons _ fn_Status_IsPending
     (Forall_cons _ fn_ByRevision_Less
-    (Forall_nil _))))))))))))))))))))))))))))))))).
+    (Forall_nil _))))))))))))))))))))))).
 Qed.
-
-(* the shape, as a plain equation between two computed lists (what [fn_ok] implies, stated
-   once more so that a change of the NUMBER of conditions of a function is visible as such) *)
-Lemma decisions_shape : shape sites = shape decisions.
-Proof. vm_compute. reflexivity. Qed.
 
 (* ---- the readable form of [table_ok] ---------------------------------------------------------- *)
 
-Lemma sites_ok_nth ss : forall gs n lbl c,
-  sites_ok ss gs -> nth_error ss n = Some (Modelled lbl c) ->
-  exists g, nth_error gs n = Some g /\ forall m : menv, env_wf m -> deval m g = Some (VB (c m)).
+Lemma items_ok_in gt f pre l : items_ok gt f pre l ->
+  forall k it, In (k, it) l -> item_ok pre it (go_item gt f k).
 Proof.
-  induction ss as [|s ss IH]; intros gs n lbl c Hok Hn; [destruct n; discriminate|].
-  destruct gs as [|g gs]; [contradiction|]. destruct Hok as [Hs Hok].
-  destruct n as [|n]; simpl in Hn.
-  - injection Hn as ->. exists g. split; [reflexivity|exact Hs].
-  - apply (IH gs n lbl c Hok Hn).
+  induction l as [|[k0 it0] t IH]; intros H k it Hin; [contradiction|].
+  destruct H as [H0 Ht]. destruct Hin as [E|Hin]; [injection E as <- <-; exact H0 | exact (IH Ht k it Hin)].
 Qed.
 
-Lemma sites_of_in {A} (t : list (string * list A)) f x : In x (sites_of t f) -> In f (map fst t).
+Lemma decision_item_agrees_lemma fm k it :
+  In fm model -> In (k, it) (fn_items fm) ->
+  forall m : menv, env_wf m -> all_hold m (map fst (fn_pre fm)) ->
+    deval m (go_item decisions (fn_name fm) k) = Some (mvalue it m).
 Proof.
-  unfold sites_of. destruct (find _ t) as [fl|] eqn:E; [|contradiction]. intros _.
-  apply find_some in E. destruct E as [Hin He]. apply String.eqb_eq in He. subst f.
-  apply in_map. exact Hin.
+  intros Hfm Hk. pose proof decisions_table_ok as H. unfold table_ok in H. rewrite Forall_forall in H.
+  exact (items_ok_in _ _ _ _ (H fm Hfm) k it Hk).
 Qed.
 
-Lemma decision_site_agrees_lemma f n lbl c :
-  nth_error (sites_of sites f) n = Some (Modelled lbl c) ->
-  exists kind g, nth_error (sites_of decisions f) n = Some (kind, g) /\
-                 forall m : menv, env_wf m -> deval m g = Some (VB (c m)).
-Proof.
-  intros Hn.
-  assert (Hf : In f (map fst sites)) by (eapply sites_of_in, nth_error_In, Hn).
-  destruct decisions_table_ok as [_ Hall]. rewrite Forall_forall in Hall.
-  destruct (sites_ok_nth _ _ _ _ _ (Hall f Hf) Hn) as [g [Hg Hm]].
-  rewrite nth_error_map in Hg. destruct (nth_error (sites_of decisions f) n) as [[k g']|]; [|discriminate].
-  injection Hg as <-. exists k, g'. split; [reflexivity|exact Hm].
-Qed.
+(* the assumptions are satisfiable: the all-default environment meets those of every function,
+   so every listed item exists in the generated table and evaluates *)
+Lemma env0_wf : env_wf env0.
+Proof. intros x _. apply Z.le_refl. Qed.
+
+Lemma assumptions_satisfiable_lemma : Forall (fun fm => all_hold env0 (map fst (fn_pre fm))) model.
+Proof. repeat constructor; vm_compute; discriminate. Qed.
 
 (* ---- examples: the obligation is not vacuous, and not syntactic --------------------------------- *)
 
-Lemma site_counts :
-  List.length (List.concat (map snd sites)) = 61 /\
-  List.length (filter modelled (List.concat (map snd sites))) = 43 /\ List.length sites = 32.
+Lemma model_counts :
+  List.length model = 22 /\ List.length (List.concat (map fn_items model)) = 52 /\
+  List.length (List.concat (map fn_pre model)) = 34.
 Proof. vm_compute. repeat split. Qed.
 
-(* prepareUpgrade's `lastRelease.Info.Status == release.StatusDeployed` widened by
-   `|| … == release.StatusFailed`: an environment tells the two apart *)
+(* prepareUpgrade's "ask the storage for the deployed revision" with
+   `lastRelease.Info.Status == release.StatusDeployed` widened by `|| … == release.StatusFailed` *)
 Lemma rejects_widened_lemma :
-  exists m, deval m (DOr (DEq (DVar TS "Last.status") (DStatus "deployed"))
-                         (DEq (DVar TS "Last.status") (DStatus "failed")))
-            <> Some (VB (c_up_last_deployed m)).
-Proof. exists (set_s "Last.status" SFailed env0). vm_compute. discriminate. Qed.
+  exists m, env_wf m /\
+    deval m (DAnd (DNot (DIsPending (DVar TS "Last.status")))
+                  (DNot (DOr (DEq (DVar TS "Last.status") (DStatus "deployed"))
+                             (DEq (DVar TS "Last.status") (DStatus "failed")))))
+    <> Some (VB (p_up_ask_deployed m)).
+Proof. exists (set_s "Last.status" SFailed env0). split; [exact env0_wf|]. vm_compute. discriminate. Qed.
 
 (* the max-history test off by one *)
 Lemma rejects_off_by_one_lemma :
-  exists m, deval m (DLt (DVar TN "len(History)") (DVar TN "arg2")) <> Some (VB (c_rlr_fits m)).
-Proof. exists (set_n "len(History)" 3%Z (set_n "arg2" 3%Z env0)). vm_compute. discriminate. Qed.
+  exists m, env_wf m /\
+    deval m (DNot (DLt (DVar TN "len(History)") (DVar TN "arg2"))) <> Some (VB (p_rlr_prune m)).
+Proof.
+  exists (set_n "len(History)" 3%Z (set_n "arg2" 3%Z env0)). split; [|vm_compute; discriminate].
+  intros x _. unfold set_n, upd; simpl. repeat destruct (String.eqb _ _); vm_compute; discriminate.
+Qed.
 
-(* an expression the translator could not read never meets an obligation *)
-Lemma rejects_unknown_lemma c txt : ~ site_ok (Modelled "x" c) (DUnknown txt).
-Proof. intros H. specialize (H env0 (fun x _ => Z.le_refl 0)). discriminate. Qed.
+(* an expression the translator could not read never meets an obligation; an opaque atom
+   does not either unless the model names it *)
+Lemma rejects_unknown_lemma it txt : ~ item_ok [] it (DUnknown txt).
+Proof. intros H. specialize (H env0 env0_wf I). discriminate. Qed.
 
-(* IsPending written as a switch, with the operands in another order: accepted *)
+Lemma rejects_opaque_lemma :
+  ~ item_ok [] (IB c_up_pending) (DOr (DIsPending (DVar TS "Last.status")) (DOpaque "somethingElse(rel)")).
+Proof.
+  intros H.
+  specialize (H (mkEnv (fun _ => false) (fun _ => SUnknown) (fun _ => 0%Z) (fun _ => TestHook) (fun _ => BeforeHookCreation)
+                       (fun _ => "") (fun _ => false) (fun _ => false) (fun _ => false) (fun _ => true))
+                (fun x _ => Z.le_refl 0) I).
+  vm_compute in H. discriminate.
+Qed.
+
+(* the nested selection of removeLeastRecent flattened into one inverted guard with continue,
+   IsPending as a switch with the operands in another order, De Morgan on integers: accepted *)
+Lemma accepts_flattened_lemma :
+  item_ok [ANonNeg "arg2"] (IB p_rlr_pick)
+    (DAnd (DAnd (DNot (DLe (DVar TN "len(History)") (DVar TN "arg2")))
+                (DNot (DEq (DSub (DVar TN "len(sorted(History))") (DVar TN "len(toDelete)")) (DVar TN "arg2"))))
+          (DNot (DAnd (DNot (DNil "Deployed"))
+                      (DEq (DVar TN "each(sorted(History)).version") (DVar TN "Deployed.version"))))).
+Proof. item_tac. Qed.
+
 Lemma accepts_switch_lemma :
-  site_ok (Modelled "pending" c_is_pending)
-          (DIf (DIn (DVar TS "recv") [DStatus "pending-rollback"; DStatus "pending-install"; DStatus "pending-upgrade"])
-               (DBool true) (DBool false)).
-Proof. site_tac. Qed.
+  item_ok [] (IB c_is_pending)
+          (DIn (DVar TS "recv") [DStatus "pending-rollback"; DStatus "pending-install"; DStatus "pending-upgrade"]).
+Proof. item_tac. Qed.
 
-(* removeLeastRecent's `len(h) <= maximum` as `!(maximum < len(h))`: accepted, for all integers *)
 Lemma accepts_de_morgan_lemma :
-  site_ok (Modelled "fits" c_rlr_fits) (DNot (DLt (DVar TN "arg2") (DVar TN "len(History)"))).
-Proof. site_tac. Qed.
+  item_ok [] (IB p_rlr_prune) (DLt (DVar TN "arg2") (DVar TN "len(History)")).
+Proof. item_tac. Qed.
